@@ -216,7 +216,15 @@ pub fn build(c: &FCase, openq: &Quirks) -> Built {
         let mut insn = avoid_open(&b.insn, openq);
         let mut r = b.regs;
         if insn.prefix.is_some() {
-            r[2] = if b.vals[7] & 7 != 0 { r[2] % 24 } else { r[2] % 1500 };
+            r[2] = if b.vals[7] % 37 == 5 {
+                // the whole 16-bit count: more repetitions in one instruction than any 16-bit tally of them holds
+                classes.push("l3/rep-cx-ffff".into());
+                0xFFFF
+            } else if b.vals[7] & 7 != 0 {
+                r[2] % 24
+            } else {
+                r[2] % 1500
+            };
             work += r[2] as u64;
         }
         if insn.mn == "popf" {
